@@ -189,7 +189,19 @@ def decode_module(sel, cur, mod: str = "m", swap: bool = False) -> Built:
         elif k == 2:
             nm = f"C{i}"
             cq, cid = f"{MQ}.{nm}", f"{MID}/{nm}"
-            b.expect.append({"kind": "class", "id": cid, "owner": MID, "name": nm})
+            # superclass list (quick: none / (ValueError, Base0) / (Base0, ValueError); thorough also the single ones)
+            sup = [(), ("ValueError", "Base0"), ("Base0", "ValueError"), ("ValueError",), ("Base0",)][rd(sel, cur, 5 if THOROUGH else 3)]
+            bases = []
+            for sname in sup:
+                if sname == "ValueError":
+                    exc = shim.instance("builtins.Exception", bases=[shim.instance("builtins.BaseException", bases=[shim.instance("builtins.object")])])
+                    bases.append(shim.base_expr("builtins.ValueError", info_bases=[exc]))
+                else:
+                    b.features.add("base-class")
+                    bases.append(shim.base_expr(f"{MQ}.Base0", info_bases=[shim.instance("builtins.object")]))
+            sup_q = [("builtins.ValueError" if x == "ValueError" else f"{MQ}.Base0") for x in sup]
+            b.expect.append({"kind": "class", "id": cid, "owner": MID, "name": nm, "superclasses": sup_q,
+                             "exception": "ValueError" in sup})
             nmem = rd(sel, cur, (MAX_MEMBERS if THOROUGH or ntop == 1 else 1) + 1)
             body, blines, defined = [], [], []
             for j in range(nmem):
@@ -199,8 +211,8 @@ def decode_module(sel, cur, mod: str = "m", swap: bool = False) -> Built:
                 blines += ln
             if not body:
                 body, blines = [ELL()], ["..."]
-            defs.append(shim.class_def(nm, cq, body))
-            lines += [f"class {nm}:"] + ["    " + x for x in blines] + [""]
+            defs.append(shim.class_def(nm, cq, body, bases=bases))
+            lines += [f"class {nm}" + (f"({', '.join(sup)})" if sup else "") + ":"] + ["    " + x for x in blines] + [""]
         elif k == 3:
             nm = f"E{i}"
             eid = f"{MID}/{nm}"
@@ -227,6 +239,11 @@ def decode_module(sel, cur, mod: str = "m", swap: bool = False) -> Built:
     for d_, l_ in (reversed(items) if swap else items):
         defs += d_
         lines += l_
+    if "base-class" in b.features:
+        pre = 3 + (1 if doc else 0)
+        lines = lines[:pre] + ["class Base0: ...", ""] + lines[pre:]
+        b.expect.append({"kind": "class", "id": f"{MID}/Base0", "owner": MID, "name": "Base0", "superclasses": [], "exception": False})
+        defs.insert(1 if doc else 0, shim.class_def("Base0", f"{MQ}.Base0", [ELL()]))
     if "decorated-function" in b.features:
         lines = lines[:3 + (1 if doc else 0)] + ["def deco(f):", "    return f", ""] + lines[3 + (1 if doc else 0):]
         b.expect.append({"kind": "function", "id": "pkg/m/deco", "owner": MID, "name": "deco"})
